@@ -86,7 +86,7 @@ fn summarize<K: Tgt>(col: &K) -> Result<Summary<K::V>, String> {
             if g.is_none() {
                 return Err(format!("get({i}) = None at len {len}"));
             }
-            let w = col.iter_range(i..(i + 6).min(len));
+            let w = col.iter_range(i..i.saturating_add(6).min(len));
             if w.first() != g.as_ref() {
                 return Err(format!("iter_range({i}..) starts with {:?} but get({i}) = {:?}", w.first().map(|x| x.show()), g.as_ref().map(|x| x.show())));
             }
@@ -123,13 +123,13 @@ pub fn load_fuzz<K: Tgt>(cx: &mut Ctx, bytes: &[u8], info: &Info, counter: &'sta
         let r = catch(|| if variant == 0 { K::load(bytes) } else { K::load_ms(bytes, small_ms) });
         let col = match r {
             Err(p) => {
-                cx.violation(&format!("c35|{}|load|{}", K::NAME, panic_sig(&p)), format!("{}::{how} panicked on untrusted bytes: {p}", K::NAME), detail::<K>(bytes, info, json!({})));
+                cx.violation(&format!("c35|{}|load|{}", crate::c34::family_name::<K>(), panic_sig(&p)), format!("{}::{how} panicked on untrusted bytes: {p}", K::NAME), detail::<K>(bytes, info, json!({})));
                 continue;
             }
             Ok(Err(e)) => {
                 cx.count("loads_err");
                 if info.valid_for == Some(K::NAME) {
-                    cx.violation(&format!("c35|{}|own-bytes-rejected", K::NAME), format!("{}::{how} rejected bytes written by save() of the same type: {e}", K::NAME), detail::<K>(bytes, info, json!({})));
+                    cx.violation(&format!("c35|{}|own-bytes-rejected", crate::c34::family_name::<K>()), format!("{}::{how} rejected bytes written by save() of the same type: {e}", K::NAME), detail::<K>(bytes, info, json!({})));
                 }
                 continue;
             }
@@ -144,11 +144,11 @@ pub fn load_fuzz<K: Tgt>(cx: &mut Ctx, bytes: &[u8], info: &Info, counter: &'sta
         cx.max("loaded_len", col.len().min(u64::MAX as usize) as u64);
         let s1 = match catch(|| summarize(&col)) {
             Err(p) => {
-                cx.violation(&format!("c35|{}|read-after-load|{}", K::NAME, panic_sig(&p)), format!("reading a column returned by {}::{how} panicked: {p}", K::NAME), detail::<K>(bytes, info, json!({"len": col.len()})));
+                cx.violation(&format!("c35|{}|read-after-load|{}", crate::c34::family_name::<K>(), panic_sig(&p)), format!("reading a column returned by {}::{how} panicked: {p}", K::NAME), detail::<K>(bytes, info, json!({"len": col.len()})));
                 continue;
             }
             Ok(Err(e)) => {
-                cx.violation(&format!("c35|{}|read-after-load-inconsistent", K::NAME), format!("column returned by {}::{how} reads inconsistently: {e}", K::NAME), detail::<K>(bytes, info, json!({"len": col.len()})));
+                cx.violation(&format!("c35|{}|read-after-load-inconsistent", crate::c34::family_name::<K>()), format!("column returned by {}::{how} reads inconsistently: {e}", K::NAME), detail::<K>(bytes, info, json!({"len": col.len()})));
                 continue;
             }
             Ok(Ok(s)) => s,
@@ -159,7 +159,7 @@ pub fn load_fuzz<K: Tgt>(cx: &mut Ctx, bytes: &[u8], info: &Info, counter: &'sta
         // save → load → same values
         let saved = match catch(|| col.save()) {
             Err(p) => {
-                cx.violation(&format!("c35|{}|save-after-load|{}", K::NAME, panic_sig(&p)), format!("save() of a column returned by {}::{how} panicked: {p}", K::NAME), detail::<K>(bytes, info, json!({})));
+                cx.violation(&format!("c35|{}|save-after-load|{}", crate::c34::family_name::<K>(), panic_sig(&p)), format!("save() of a column returned by {}::{how} panicked: {p}", K::NAME), detail::<K>(bytes, info, json!({})));
                 continue;
             }
             Ok(b) => b,
@@ -168,12 +168,12 @@ pub fn load_fuzz<K: Tgt>(cx: &mut Ctx, bytes: &[u8], info: &Info, counter: &'sta
             cx.count("resave_identical");
         }
         match catch(|| K::load(&saved).map(|c2| summarize(&c2))) {
-            Err(p) => cx.violation(&format!("c35|{}|reload|{}", K::NAME, panic_sig(&p)), format!("loading the re-saved bytes of an accepted column panicked: {p}"), detail::<K>(bytes, info, json!({"resaved_hex": hex::encode(&saved[..saved.len().min(600)])}))),
-            Ok(Err(e)) => cx.violation(&format!("c35|{}|resave-rejected", K::NAME), format!("{}: {how} accepted the input but load(save()) of that column fails: {e}", K::NAME), detail::<K>(bytes, info, json!({"resaved_hex": hex::encode(&saved[..saved.len().min(600)])}))),
-            Ok(Ok(Err(e))) => cx.violation(&format!("c35|{}|read-after-reload-inconsistent", K::NAME), format!("{}: the re-saved column reads inconsistently: {e}", K::NAME), detail::<K>(bytes, info, json!({}))),
+            Err(p) => cx.violation(&format!("c35|{}|reload|{}", crate::c34::family_name::<K>(), panic_sig(&p)), format!("loading the re-saved bytes of an accepted column panicked: {p}"), detail::<K>(bytes, info, json!({"resaved_hex": hex::encode(&saved[..saved.len().min(600)])}))),
+            Ok(Err(e)) => cx.violation(&format!("c35|{}|resave-rejected", crate::c34::family_name::<K>()), format!("{}: {how} accepted the input but load(save()) of that column fails: {e}", K::NAME), detail::<K>(bytes, info, json!({"resaved_hex": hex::encode(&saved[..saved.len().min(600)])}))),
+            Ok(Ok(Err(e))) => cx.violation(&format!("c35|{}|read-after-reload-inconsistent", crate::c34::family_name::<K>()), format!("{}: the re-saved column reads inconsistently: {e}", K::NAME), detail::<K>(bytes, info, json!({}))),
             Ok(Ok(Ok(s2))) => {
                 if s1 != s2 {
-                    cx.violation(&format!("c35|{}|resave-values-differ", K::NAME), format!("{}: load(save(col)) has different values than col (col from {how}); len {} vs {}", K::NAME, s1.len, s2.len), detail::<K>(bytes, info, json!({"resaved_hex": hex::encode(&saved[..saved.len().min(600)])})));
+                    cx.violation(&format!("c35|{}|resave-values-differ", crate::c34::family_name::<K>()), format!("{}: load(save(col)) has different values than col (col from {how}); len {} vs {}", K::NAME, s1.len, s2.len), detail::<K>(bytes, info, json!({"resaved_hex": hex::encode(&saved[..saved.len().min(600)])})));
                 } else {
                     cx.count("resave_roundtrips");
                 }
@@ -206,7 +206,7 @@ fn roundtrip<K: Tgt>(cx: &mut Ctx, rng: &mut Rng, counter: &'static str, es: &[E
     let bytes = match catch(|| b.col.save()) {
         Ok(x) => x,
         Err(p) => {
-            cx.violation(&format!("c35|{}|save|{}", K::NAME, panic_sig(&p)), format!("save() panicked: {p}"), b.detail(json!({})));
+            cx.violation(&format!("c35|{}|save|{}", crate::c34::family_name::<K>(), panic_sig(&p)), format!("save() panicked: {p}"), b.detail(json!({})));
             return;
         }
     };
@@ -220,15 +220,15 @@ fn roundtrip<K: Tgt>(cx: &mut Ctx, rng: &mut Rng, counter: &'static str, es: &[E
     let mut first: Option<K> = None;
     for (how, f) in variants {
         match catch(|| f()) {
-            Err(p) => cx.violation(&format!("c35|{}|load|{}", K::NAME, panic_sig(&p)), format!("{}::{how} of its own save() panicked: {p}", K::NAME), b.detail(json!({"bytes": hex::encode(&bytes[..bytes.len().min(600)])}))),
-            Ok(Err(e)) => cx.violation(&format!("c35|{}|own-bytes-rejected", K::NAME), format!("{}::{how} rejected the bytes written by save(): {e}", K::NAME), b.detail(json!({"bytes": hex::encode(&bytes[..bytes.len().min(600)])}))),
+            Err(p) => cx.violation(&format!("c35|{}|load|{}", crate::c34::family_name::<K>(), panic_sig(&p)), format!("{}::{how} of its own save() panicked: {p}", K::NAME), b.detail(json!({"bytes": hex::encode(&bytes[..bytes.len().min(600)])}))),
+            Ok(Err(e)) => cx.violation(&format!("c35|{}|own-bytes-rejected", crate::c34::family_name::<K>()), format!("{}::{how} rejected the bytes written by save(): {e}", K::NAME), b.detail(json!({"bytes": hex::encode(&bytes[..bytes.len().min(600)])}))),
             Ok(Ok(c)) => {
                 cx.count("loads_ok");
                 match catch(|| c.to_vec()) {
-                    Err(p) => cx.violation(&format!("c35|{}|read-after-load|{}", K::NAME, panic_sig(&p)), format!("to_vec() after {how} panicked: {p}"), b.detail(json!({}))),
+                    Err(p) => cx.violation(&format!("c35|{}|read-after-load|{}", crate::c34::family_name::<K>(), panic_sig(&p)), format!("to_vec() after {how} panicked: {p}"), b.detail(json!({}))),
                     Ok(v) => {
                         if v != *model {
-                            cx.violation(&format!("c35|{}|roundtrip-values-differ", K::NAME), format!("{}: {}", K::NAME, crate::c34::diff_text(&format!("{how}(save(col)).to_vec()"), &v, model)), b.detail(json!({"bytes": hex::encode(&bytes[..bytes.len().min(600)])})));
+                            cx.violation(&format!("c35|{}|roundtrip-values-differ", crate::c34::family_name::<K>()), format!("{}: {}", K::NAME, crate::c34::diff_text(&format!("{how}(save(col)).to_vec()"), &v, model)), b.detail(json!({"bytes": hex::encode(&bytes[..bytes.len().min(600)])})));
                         } else {
                             cx.count("roundtrips");
                         }
@@ -246,11 +246,11 @@ fn roundtrip<K: Tgt>(cx: &mut Ctx, rng: &mut Rng, counter: &'static str, es: &[E
             let b2 = c.save();
             (K::load(&b2).map(|c2| c2.to_vec()), b2)
         }) {
-            Err(p) => cx.violation(&format!("c35|{}|reload|{}", K::NAME, panic_sig(&p)), format!("save()/load() of a loaded column panicked: {p}"), b.detail(json!({}))),
-            Ok((Err(e), b2)) => cx.violation(&format!("c35|{}|resave-rejected", K::NAME), format!("{}: save() of a loaded column does not load: {e}", K::NAME), b.detail(json!({"bytes": hex::encode(&b2[..b2.len().min(600)])}))),
+            Err(p) => cx.violation(&format!("c35|{}|reload|{}", crate::c34::family_name::<K>(), panic_sig(&p)), format!("save()/load() of a loaded column panicked: {p}"), b.detail(json!({}))),
+            Ok((Err(e), b2)) => cx.violation(&format!("c35|{}|resave-rejected", crate::c34::family_name::<K>()), format!("{}: save() of a loaded column does not load: {e}", K::NAME), b.detail(json!({"bytes": hex::encode(&b2[..b2.len().min(600)])}))),
             Ok((Ok(v), b2)) => {
                 if v != *model {
-                    cx.violation(&format!("c35|{}|resave-values-differ", K::NAME), format!("{}: {}", K::NAME, crate::c34::diff_text("load(save(load(save(col)))).to_vec()", &v, model)), b.detail(json!({})));
+                    cx.violation(&format!("c35|{}|resave-values-differ", crate::c34::family_name::<K>()), format!("{}: {}", K::NAME, crate::c34::diff_text("load(save(load(save(col)))).to_vec()", &v, model)), b.detail(json!({})));
                 } else {
                     cx.count("resave_roundtrips");
                 }
@@ -412,10 +412,10 @@ impl Check for C35 {
         "C35"
     }
     fn cases(&self, tier: Tier) -> u64 {
-        tier.pick(30_000, 900_000)
+        tier.pick(24_000, 1_200_000)
     }
     fn budget_s(&self, tier: Tier) -> u64 {
-        tier.pick(20, 380)
+        tier.pick(18, 360)
     }
     fn min_nontrivial(&self, tier: Tier) -> u64 {
         tier.pick(1000, 20_000)
